@@ -201,7 +201,8 @@ End:
 
 	itr.rowBuilder.AddMetricName(metricName)
 	itr.rowBuilder.AddTimestamp(itr.originRow.Timestamp())
-	ns := itr.originRow.NameSpace()
+	// the raw namespace of the row: NameSpace() substitutes the default namespace for an empty one
+	ns := itr.originRow.m.Namespace()
 	if len(ns) == 0 {
 		// if row namespace is empty, use request's namespace
 		ns = itr.namespace
